@@ -217,7 +217,7 @@ WithScales(d, sid) ==
   LET f == CASE sid = "s0" -> One [] sid = "s1" -> R(2) [] sid = "s2" -> Q(1, 4)
       sx(i) == Mul(f, R(i))
   IN IF sid = "s0" THEN d
-     ELSE [d EXCEPT !.states = Tup([i \in 1..Len(d.states) |-> [scale |-> sx(i), dscale |-> Mul(f, R(3))]]),
+     ELSE [d EXCEPT !.states = Tup([i \in 1..Len(d.states) |-> [scale |-> sx(i), dscale |-> Mul(f, R(2 + i))]]),       \* every state its own derivative scale
                     !.controls = Tup([i \in 1..Len(d.controls) |-> [scale |-> Mul(f, R(5))]]),
                     !.algs = Tup([i \in 1..Len(d.algs) |-> [scale |-> Mul(f, R(7))]]),
                     !.vars = Tup([i \in 1..Len(d.vars) |-> [kind |-> d.vars[i].kind, scale |-> Mul(f, R(i + 1))]]),
@@ -266,7 +266,7 @@ SpaceX ==
               /\ (s.lT \/ s.grid = "free" => s.rhs = "R2" /\ s.when = "before" /\ s.gs \in {"none", "xe", "T", "t0", "mix"})
               /\ (s.grid = "free" => ~s.lT)}
     [] Family = "C14" ->
-         {s \in [rhs : {"R2", "R3", "R6"}, meth : {"MS", "SS", "DC"}, intg : {"rk", "radau2"}, N : 1..2, M : 1..2, grid : {"uni", "geo"},
+         {s \in [rhs : {"R2", "R3", "R6", "RC"}, meth : {"MS", "SS", "DC"}, intg : {"rk", "radau2"}, N : 1..2, M : 1..2, grid : {"uni", "geo"},
                  hz : {"num", "fb"}, seed : {Seed}, cons : {<<"k1", "k3", "k4">>, <<"k7", "k5">>, <<"kW", "kX">>}, obj : {<<"o1", "o3">>, <<"o6">>}, lT : {FALSE},
                  gs : {"none", "mix", "twice"}, scl : {"s1", "s2"}, when : {"before"}] :
               /\ (s.meth = "DC" <=> s.intg = "radau2") /\ (s.rhs = "R6" => s.meth = "DC")}
@@ -324,7 +324,7 @@ SpaceR == {s \in [rhs : {"R1", "R2", "R3", "R4", "R5", "RA", "RC"}, meth : {"MS"
 (* C15 family: grid='inf' constraints.                                     *)
 (***************************************************************************)
 InfCon(cid, lhs, rhs) == Con(cid, "le", lhs, rhs, "inf", TRUE, TRUE)
-InfIds == {"i1", "i2", "i3", "i4", "i5", "i6", "i7", "i8"}
+InfIds == {"i1", "i2", "i3", "i4", "i5", "i6", "i7", "i8", "i9", "iA", "iB"}
 InfOf(id, nx) ==
   CASE id = "i1" -> InfCon("i1", X(1), CI(3))
     [] id = "i2" -> InfCon("i2", Sq(X(1)), CI(9))
@@ -334,15 +334,21 @@ InfOf(id, nx) ==
     [] id = "i7" -> Con("i7", "ge", Plus(X(1), Sq(X(1))), CI(-2), "inf", TRUE, TRUE)          \* lower-degree term first: needs degree elevation
     [] id = "i8" -> Con("i8", "ge", Minus(X(nx), Times(X(1), X(nx))), CI(-9), "inf", TRUE, TRUE)
     [] id = "i6" -> Con("i6", "ge", Minus(X(1), Times(C(1, 2), DX(nx))), CI(-6), "inf", TRUE, TRUE)
+    [] id = "iA" -> InfCon("iA", Minus(CI(2), X(1)), CI(5))                                    \* a constant as left operand of a subtraction
+    [] id = "iB" -> Con("iB", "ge", Minus(C(1, 2), Times(X(1), X(nx))), CI(-9), "inf", TRUE, TRUE)
+\* i9: two products of a state with the derivative of the other one, in both orders, in one problem
+InfSeq(id, nx) == IF id = "i9" THEN <<InfCon("i9a", Times(X(1), DX(nx)), CI(20)), InfCon("i9b", Times(DX(1), X(nx)), CI(21)),
+                                      InfCon("i9c", Times(X(1), Sq(X(nx))), CI(30)), InfCon("i9d", Times(Times(X(1), X(nx)), X(nx)), CI(31))>>
+                  ELSE <<InfOf(id, nx)>>
 MkDeclInf(s) ==
   LET N == s.N
       d0 == Rhs(s.rhs, N)
       d1 == [d0 EXCEPT !.method = Method(s.meth, N, s.M, "rk", IF s.grid = "free" THEN FreeG ELSE GridOf(s.grid, N)),
-                       !.cons = <<InfOf(s.ic, Len(d0.states))>>, !.obj = <<O1, O3>>]
+                       !.cons = InfSeq(s.ic, Len(d0.states)), !.obj = <<O1, O3>>]
   IN WithHorizon(d1, s.hz, IF s.seed % 2 = 0 THEN One ELSE Q(-1, 2), TBase(IF s.grid = "free" THEN "uni" ELSE s.grid, N))
 SpaceInf == {s \in [rhs : {"R1", "R2", "R3"}, meth : {"MS", "SS"}, N : 1..(IF Thorough THEN 3 ELSE 2), M : 1..2, grid : {"uni", "geo", "fun", "free"},
                     hz : {"num", "fT"}, ic : InfIds, seed : {Seed}, cons : {<<>>}, obj : {<<>>}] :
-                (s.ic = "i4" => s.rhs = "R3")}      \* with one state i4 degenerates to a true constant
+                (s.ic \in {"i4", "i9"} => s.rhs = "R3")}      \* with one state i4 degenerates to a true constant
 
 IsX == Family \in {"C09", "C10", "C11", "C14"}
 MaxN == IF Thorough THEN 4 ELSE 3
